@@ -49,8 +49,13 @@ func VerifC15Write() {
 	fsys.NowSec = 1700000000
 	fsys.MkdirAllP(vExtractDir)
 	fsys.PutFile("/w/outside", []byte("keep"), 1)
-	pre := rt.IntRange(0, 3)
+	fsys.MkdirAllP("/w/elsewhere")
+	pre := rt.IntRange(0, 4)
 	switch pre {
+	case 4:
+		// a dangling symbolic link where an entry may want to go, pointing out of the directory
+		fsys.PutSymlink(vExtractDir+"/a", "/w/elsewhere/victim")
+		rt.Reach("dangling-symlink-in-directory")
 	case 1:
 		fsys.PutFile(vExtractDir+"/a", []byte("pre-a"), 1)
 	case 2:
@@ -89,6 +94,10 @@ func VerifC15Write() {
 		rt.Assert(string(fsys.File(vExtractDir+"/a/b").Data) == "pre-ab", "existing-file-not-overwritten")
 	case 3:
 		rt.Assert(string(fsys.File(vExtractDir+"/b").Data) == "pre-b", "existing-file-not-overwritten")
+	case 4:
+		l := fsys.File(vExtractDir + "/a")
+		rt.Assert(l != nil && l.Link == "/w/elsewhere/victim", "existing-link-not-replaced")
+		rt.Assert(fsys.File("/w/elsewhere/victim") == nil, "nothing-created-through-a-link")
 	}
 	// escaping names are refused
 	anyEscapes := false
